@@ -17,9 +17,10 @@ BIG = ("chg", "nf", "ff", "tabs", "arena", "a", "b", "c")
 U64 = (1 << 64) - 1
 
 STATEMENTS = [
-    "R1 sysReserve(size) reserves exactly roundup(size, 4096) bytes of kernel address space: page-aligned result, *reserved = true, the region lies in "
-    "space nothing reserved before (no overlap with earlier regions, sysAlloc regions or earlier reservations), no mapping, no frame; when the space "
-    "cannot be reserved it panics and changes nothing",
+    "R1 sysReserve(size) reserves a region of roundup(size, 4096) bytes of kernel address space: page-aligned result, *reserved = true, the region lies "
+    "inside the space this call took from vmm's reservation area, which nothing reserved before (no overlap with earlier regions, sysAlloc regions or "
+    "earlier reservations; where vmm places it and how much slack it adds is not constrained), no mapping, no frame; when the space cannot be reserved "
+    "it panics and changes nothing",
     "R2 sysMap(addr, size, reserved, stat): reserved = false panics before any effect; otherwise every page of [roundup(addr), roundup(addr)+roundup(size)) "
     "ends up mapped to the zero frame with exactly Present|NoExecute|CopyOnWrite (never writable), no other page changes, no frame is taken apart from "
     "page-table frames, *stat grows by exactly roundup(size), result roundup(addr); a failing map (only for lack of RAM) yields 0 and leaves *stat alone",
@@ -37,7 +38,8 @@ STATEMENTS = [
 DEVIATIONS = {
     "WrapZero": "Dev_WrapZero: a size above 2^64-4096 makes the page round-up wrap to 0 and the hooks treat the request as size 0 - sysReserve / sysAlloc "
                 "succeed with an EMPTY region, sysMap maps nothing and reports success (vmm.EarlyReserveRegion itself rejects such sizes since the fix "
-                "'reject region sizes whose page round-up overflows', but the hooks round before they call it)",
+                "'reject region sizes whose page round-up overflows', but the hooks round before they call it); the monitor tolerates this and "
+                "always accepts a refusal without effect",
     "MapStartUp": "Dev_MapStartUp: sysMap rounds an unaligned addr UP and keeps the size: the page that holds addr is not mapped and the range ends "
                   "roundup(addr)-addr bytes behind addr+size; a sysMap of the last page of a reserved region with an unaligned addr maps the page BEHIND the "
                   "region (whatever was reserved before it: another heap region, or the frame allocator's own tables)",
